@@ -691,7 +691,7 @@ class RewriteSim:
         # the swaps apply almost everywhere; give the rarely applicable rules more weight
         cfg["weights"] = {r: rng.choice([1, 1, 2, 4]) if r in ("CS", "CSnp", "AG") else rng.choice([2, 4, 8])
                           for r in cfg["rules"]}
-        cfg["policy"] = rng.choice(["uniform", "newest", "oldest", "round-robin", "deepest"])
+        cfg["policy"] = rng.choice(["uniform", "newest", "oldest", "round-robin", "deepest", "rare-rule"])
         cfg["n_ops"] = rng.choice([4, 8, 12, 24, 24, 40])
         cfg["query_p"] = rng.choice([0.0, 0.1, 0.3])
         return cfg
@@ -728,6 +728,11 @@ class RewriteSim:
                     by_rule.setdefault(name, []).append(ni)
                 names = sorted(by_rule)
                 w = [cfg["weights"].get(nm, 1) for nm in names]
+                if pol == "rare-rule":
+                    # novelty: prefer the rule applied least often so far in this episode
+                    used = world.res.stats
+                    least = min(used.get("steps." + nm, 0) for nm in names)
+                    w = [8 if used.get("steps." + nm, 0) == least else 1 for nm in names]
                 name = rng.choices(names, weights=w)[0]
                 ni = rng.choice(by_rule[name])
                 op = ["expand", si, name, ni]
